@@ -187,6 +187,28 @@ PROPS = {
         "trusted": RUNTIME_TRUST + ["crypto/tls: a read yields plaintext only after a handshake satisfying the tls.Config (`beh` in the model)"],
         "assumptions": ["partial: the handshake verdict is crypto/tls's; the model covers the plumbing (listener wrapped before the accept loop, loop accepts on the wrapped listener, WithMTLS sets RequireAndVerifyClientCert and the CA pool)"],
     },
+    "C15": {
+        "lean": ["GldapModel.Props.C15"], "audit": "GldapModel/Audit/C15.lean",
+        "inventory": LIFECYCLE_FUNCS + ["ResponseWriter.Write", "Mux.serve", "td.Directory.handleBind", "td.Directory.handleAdd",
+                                        "td.Directory.handleModify", "td.Directory.handleDelete", "td.Directory.handleSearchUsers",
+                                        "td.Directory.handleSearchGroups", "td.Directory.handleSearchGeneric", "td.Directory.SetUsers",
+                                        "td.Directory.SetGroups", "td.Directory.SetControls", "td.Directory.SetTokenGroups",
+                                        "td.Directory.SetAllowAnonymousBind", "td.Directory.Users", "td.Directory.Groups",
+                                        "td.Directory.Controls", "td.Directory.TokenGroups", "td.Directory.AllowAnonymousBind"],
+        "streams": [
+            {"stream": "tdrace", "race": True, "n_quick": 3, "n_thorough": 30, "timeout_quick": 900, "timeout_thorough": 3000},
+            {"stream": "c05", "race": True, "n_quick": 8, "n_thorough": 100, "timeout_quick": 900, "timeout_thorough": 3000},
+            {"stream": "c06", "race": True, "n_quick": 8, "n_thorough": 80, "timeout_quick": 900, "timeout_thorough": 3000},
+            {"stream": "c08", "race": True, "n_quick": 10, "n_thorough": 100, "timeout_quick": 900, "timeout_thorough": 3000},
+            {"stream": "c10", "race": True, "n_quick": 6, "n_thorough": 60, "timeout_quick": 900, "timeout_thorough": 3000},
+            {"stream": "c12", "race": True, "n_quick": 8, "n_thorough": 80, "timeout_quick": 900, "timeout_thorough": 3000},
+            {"stream": "c13", "race": True, "n_quick": 5, "n_thorough": 50, "timeout_quick": 900, "timeout_thorough": 3000},
+            {"stream": "c11", "race": True, "n_quick": 6, "n_thorough": 60, "timeout_quick": 900, "timeout_thorough": 3000},
+        ],
+        "trusted": RUNTIME_TRUST + ["Go's race detector (happens-before analysis of each observed execution)",
+                                    "the classical DRF result relating the lockset/confinement discipline to happens-before races is cited, not re-proved"],
+        "assumptions": ["partial: the access table is extracted syntactically (receiver-variable heuristics, intraprocedural lock sets plus caller-holds propagation); accesses through closures handed to other packages or reflection are invisible to it; the memory model itself is only exercised by the race detector"],
+    },
     "C14": {
         "lean": ["GldapModel.Props.C14"],
         "audit": "GldapModel/Audit/C14.lean",
